@@ -53,7 +53,10 @@ pub struct BackendConn {
 pub struct StmtEntry {
     pub conn: usize, // index into backend_conns
     pub rec: StmtRec,
+    /// when the statement finished executing
     pub us: u64,
+    /// when the message that ran it was read by the server
+    pub start_us: u64,
     pub bans: Vec<String>,
 }
 
